@@ -46,6 +46,23 @@ class FakeFile:
         pass
 
 
+class TextOverBytes:
+    """what open(path) in text mode gives: every read() decodes the new bytes on their own and to the end
+    (TextIOWrapper.read() without a size finalises its decoder), so bytes that stop in the middle of a multi-byte
+    character raise UnicodeDecodeError"""
+    def __init__(self, raw):
+        self.raw = raw
+
+    def read(self, *a):
+        return self.raw.read().decode('utf-8').replace('\r\n', '\n')
+
+    def seek(self, off, whence=0):
+        return self.raw.seek(off, whence)
+
+    def close(self):
+        pass
+
+
 class FakeFS:
     def __init__(self, rec, order_key):
         self.rec = rec
@@ -160,7 +177,17 @@ def run_source(sc):
             kw['start'] = True
             rec.rec('start_call')
         fobj = fs = None
-        if s['type'] == 'textfile':
+        if s['type'] == 'textfile' and s.get('by_path'):
+            # the source is given a file *name* and opens the file itself: the writes are byte strings that may
+            # end in the middle of a multi-byte character
+            fobj = FakeFile(rec, bytes.fromhex(s.get('pre_hex', '')), s.get('short'))
+
+            def fake_open(path, mode='r', *a, **k):
+                rec.rec('open', mode)
+                return fobj if 'b' in mode else TextOverBytes(fobj)
+            streamz.sources.open = fake_open
+            src = Stream.from_textfile('/data/log.txt', poll_interval=s['poll'], delimiter=s.get('delimiter', '\n'), **kw)
+        elif s['type'] == 'textfile':
             fobj = FakeFile(rec, s.get('pre', ''), s.get('short'))
             src = Stream.from_textfile(fobj, poll_interval=s['poll'], delimiter=s.get('delimiter', '\n'),
                                        from_end=s.get('from_end', False), **kw)
@@ -218,7 +245,7 @@ def run_source(sc):
                 if twin is not None:
                     twin.stop()
             elif k == 'append':
-                fobj.append(op['data'])
+                fobj.append(bytes.fromhex(op['hex']) if 'hex' in op else op['data'])
             elif k == 'create':
                 fs.create(op['name'])
             elif k == 'delete':
@@ -240,6 +267,8 @@ def run_source(sc):
         for name, exc in lp.dead_tasks():
             rec.rec('task_exc', name, type(exc).__name__, str(exc)[:80])
         simloop.dispose_loop(lp)
+        if 'open' in vars(streamz.sources):
+            del streamz.sources.open
         from .pipeline import _reset_streamz
         _reset_streamz()
         import glob as _g
